@@ -71,7 +71,8 @@ EnvTear == /\ crashed' = TRUE /\ viol' = {} /\ UNCHANGED <<fs, lastOk, lastFaile
 \* obs = [req: <<task>>, force: BOOLEAN, failing: <<task>>,
 \*        reports: <<[t, skipped, nres]>>      what spok reported (empty if it returned an error or was killed)
 \*        ran: <<[t, n, ok]>>                  ground truth: which commands really executed (ok = all n = NCmds exited 0)
-\*        outcome: "normal" | "error" | "panic" | "killed",  errcls: "none" | "cache" | "other",  killed: BOOLEAN]
+\*        outcome: "normal" | "error" | "panic" | "killed",  errcls: "none" | "cache" | "runner" | "other",  killed: BOOLEAN]
+\*        (errcls "runner": a command could not be run at all -- the environment's doing, like a failing command)
 Rep(obs)        == SeqRange(obs.reports)
 RanIdx(obs, t)  == {i \in DOMAIN obs.ran : obs.ran[i].t = t}
 Executed(obs, t) == RanIdx(obs, t) # {}
@@ -115,7 +116,7 @@ Violations(obs) ==
   \cup (IF (crashed \/ obs.killed) /\
            (\/ WrongSkips(obs) # {}
             \/ obs.outcome = "panic"
-            \/ (obs.outcome = "error" /\ obs.errcls # "cache" /\ ~\E t \in clo : MissingLit(t)))
+            \/ (obs.outcome = "error" /\ obs.errcls \notin {"cache", "runner"} /\ ~\E t \in clo : MissingLit(t)))
         THEN {"C10"} ELSE {})
 
 Observe(obs) ==
